@@ -29,13 +29,27 @@ LAMBDA_OUTER = {'args.defaults[]', 'args.kw_defaults[]'}
 ARGUMENTS_INNER = {'posonlyargs[]', 'args[]', 'vararg', 'kwonlyargs[]', 'kwarg'}           # parameters themselves are in scope
 COMPREHENSION_INNER = {'target', 'iter', 'ifs[]'}                                        # `iter` only if not the first one
 
+# keyed by the node class whose row in _SCOPE_WALK_FUNCS names the helper (the helpers are found through the table, not by name)
 ORACLE = {
-    '_ScopeContext.stack_funcdef': FUNCDEF_OUTER,
-    '_ScopeContext.stack_ClassDef': CLASSDEF_OUTER,
-    '_ScopeContext.stack_Lambda': LAMBDA_OUTER,
-    '_ScopeContext.stack_arguments': ARGUMENTS_INNER,
-    '_ScopeContext.stack_comprehension': COMPREHENSION_INNER,
+    'FunctionDef': FUNCDEF_OUTER,
+    'AsyncFunctionDef': FUNCDEF_OUTER,
+    'ClassDef': CLASSDEF_OUTER,
+    'Lambda': LAMBDA_OUTER,
+    'arguments': ARGUMENTS_INNER,
+    'comprehension': COMPREHENSION_INNER,
 }
+# classes that share one helper
+HELPER_GROUPS = [{'FunctionDef', 'AsyncFunctionDef'}, {'ClassDef'}, {'Lambda'}, {'arguments'}, {'arg'}, {'TypeVar', 'ParamSpec', 'TypeVarTuple'},
+                 {'comprehension'}, {'ListComp', 'SetComp', 'DictComp', 'GeneratorExp'}]
+
+
+def scope_helper(ctx, cname):
+    """FuncInfo list of the helper _SCOPE_WALK_FUNCS names for class `cname`."""
+    S = ctx.ev.get('fst_traverse', '_SCOPE_WALK_FUNCS')
+    for k, row in S.items():
+        if getattr(k, 'name', None) == cname and isinstance(row, tuple) and row and isinstance(row[0], FuncTok):
+            return ctx.repo.find_funcs(row[0].module, row[0].qualname) or ctx.repo.mod(row[0].module).func(row[0].qualname)
+    raise AnalysisError(f'_SCOPE_WALK_FUNCS has no helper for {cname}')
 
 # identifier-typed fields of the grammar: binder or not (completeness of this table against FIELDS is checked)
 BINDERS = {('FunctionDef', 'name'), ('AsyncFunctionDef', 'name'), ('ClassDef', 'name'), ('arg', 'arg'),
@@ -211,14 +225,19 @@ def run(ctx):
     ctx.rule('R16.1a', '_SCOPE_WALK_FUNCS has an entry for every scope-introducing node kind and for arguments / arg / type '
                        'params / comprehension, mapped to the helper of the right kind; generator flag matches the helper', 14)
     S = ctx.ev.get('fst_traverse', '_SCOPE_WALK_FUNCS')
-    want = {'FunctionDef': 'stack_funcdef', 'AsyncFunctionDef': 'stack_funcdef', 'ClassDef': 'stack_ClassDef',
-            'Lambda': 'stack_Lambda', 'arguments': 'stack_arguments', 'arg': 'stack_arg', 'TypeVar': 'stack_type_param',
-            'ParamSpec': 'stack_type_param', 'TypeVarTuple': 'stack_type_param', 'comprehension': 'stack_comprehension',
-            'ListComp': 'walk_Comp', 'SetComp': 'walk_Comp', 'DictComp': 'walk_Comp', 'GeneratorExp': 'walk_Comp'}
+    want = {c: i for i, g in enumerate(HELPER_GROUPS) for c in g}
+    gen_kinds = {'ListComp', 'SetComp', 'DictComp', 'GeneratorExp'}
     have = {k.name: v for k, v in S.items()}
     for cname, helper in want.items():
         row = have.get(cname)
-        ok = isinstance(row, tuple) and len(row) == 2 and isinstance(row[0], FuncTok) and row[0].name == helper
+        # the classes of one group share one helper, two groups never do (what the helper pushes is checked per class in R16.1b)
+        ok = isinstance(row, tuple) and len(row) == 2 and isinstance(row[0], FuncTok)
+        if ok:
+            same = [have.get(c2) for c2 in HELPER_GROUPS[helper]]
+            other = [have.get(c2) for i2, g2 in enumerate(HELPER_GROUPS) if i2 != helper for c2 in g2]
+            ok = all(isinstance(r2, tuple) and r2 and isinstance(r2[0], FuncTok) and r2[0].key == row[0].key for r2 in same) and \
+                not any(isinstance(r2, tuple) and r2 and isinstance(r2[0], FuncTok) and r2[0].key == row[0].key for r2 in other)
+            helper = row[0].name
         if ok:
             fis = ctx.repo.find_funcs('fst_traverse', row[0].qualname)
             def yields_values(fn_node, depth=0):
@@ -237,7 +256,7 @@ def run(ctx):
                         return False
                 return True
             is_gen = yields_values(fis[0].node) if fis else None
-            ok = fis and is_gen == row[1]
+            ok = fis and is_gen == row[1] and (row[1] is True) == (cname in gen_kinds)
         ctx.check('R16.1a', bool(ok), 'fst_traverse', '_SCOPE_WALK_FUNCS', f'{cname}: {helper}',
                   f'{cname} must be handled by _ScopeContext.{helper} (with matching generator flag); found {row!r}: the scope '
                   f'walk would descend into parts that belong to another scope, or call a generator as a function')
@@ -249,26 +268,51 @@ def run(ctx):
     # ---- R16.1b pushed paths vs oracle ------------------------------------------------------------------------------------
     ctx.rule('R16.1b', 'the attribute paths each scope helper pushes (back arm and forward arm separately) equal the '
                        'language-reference set of parts that belong to the enclosing (resp. own) scope', 10)
-    for q, oracle in ORACLE.items():
-        for fi in ctx.repo.funcs('fst_traverse', q):
-            from ..inline import inlined
-            fnode, _ = inlined(ctx.repo, fi)          # what the helper does, workers it was split into included
-            pe = PathEnv(fnode, 'ast')
+    done_helpers = set()
+    for cname_, oracle in ORACLE.items():
+        for fi in scope_helper(ctx, cname_):
+            if fi.key in done_helpers:
+                continue
+            done_helpers.add(fi.key)
+            q = fi.qualname
+            from ..inline import inlined, simplify
+            fnode, n_inl = inlined(ctx.repo, fi)      # what the helper does, workers it was split into included
+            if n_inl:
+                def const_strs(e, fi=fi):
+                    try:
+                        v = ctx.ev.eval(e, dict(ctx.ev.env(fi.module)), fi.module)
+                    except Exception:
+                        return None
+                    return list(v) if isinstance(v, (tuple, list)) and v and all(isinstance(x, str) for x in v) else None
+                fnode = simplify(fnode, const_strs)
+            hps = [a.arg for a in fnode.args.posonlyargs + fnode.args.args]
+            if len(hps) < 3:
+                raise AnalysisError(f'{q}: helper parameters (context, node, stack) not found')
+            root_name, stack_name = hps[1], hps[2]
+            pe = PathEnv(fnode, root_name)
             pe.solve()
             ifs = find_back_ifs(fnode)
             if not ifs:
                 raise AnalysisError(f'{q}: no direction arms found')
             for n in ifs:
                 for arm_name, arm in (('back', n.body), ('forward', n.orelse)):
-                    got = pe.pushes(arm)
+                    got = pe.pushes(arm, stack_name)
                     ctx.check('R16.1b', got == oracle, fi.module, fi.qualname, f'{arm_name} arm pushes {sorted(got)}',
                               f'{arm_name} arm of {q} pushes {sorted(got)}; Python scoping requires exactly {sorted(oracle)} '
                               f'(missing {sorted(oracle - got)}, extra {sorted(got - oracle)})', n.lineno,
                               sample={'helper': q, 'arm': arm_name, 'paths': sorted(got)})
     # first iterable exclusion
-    fi = ctx.repo.funcs('fst_traverse', '_ScopeContext.stack_comprehension')[0]
-    guards = [n for n in walk_no_nested(fi.node) if isinstance(n, ast.If) and 'is not self.scope_first_iter' in norm(n.test)]
-    ctx.check('R16.1b', len(guards) == 2 and all('ast.iter' in norm(g.test) for g in guards), fi.module, fi.qualname,
+    fi = scope_helper(ctx, 'comprehension')[0]
+    rootc = [a.arg for a in fi.node.args.posonlyargs + fi.node.args.args][1]
+
+    def excludes_first_iter(t):
+        # `(a := <node>.iter) is not <ctx>.scope_first_iter`
+        return any(isinstance(c, ast.Compare) and len(c.ops) == 1 and isinstance(c.ops[0], ast.IsNot) and
+                   any(isinstance(y, ast.Attribute) and y.attr == 'scope_first_iter' for y in ast.walk(c.comparators[0])) and
+                   any(isinstance(y, ast.Attribute) and y.attr == 'iter' and norm(y.value) == rootc for y in ast.walk(c.left))
+                   for c in ast.walk(t))
+    guards = [n for n in walk_no_nested(fi.node) if isinstance(n, ast.If) and excludes_first_iter(n.test)]
+    ctx.check('R16.1b', len(guards) == 2, fi.module, fi.qualname,
               'iter pushed only `if (a := ast.iter) is not self.scope_first_iter`',
               'the first iterable of the root comprehension belongs to the enclosing scope and must be excluded in both arms',
               fi.lineno)
